@@ -182,18 +182,33 @@ class TextContent(BaseModel):
 
         text = str(converted_text)
 
+        return self._escape_non_ascii(text)
+
+    @staticmethod
+    def _escape_non_ascii(text: str) -> str:
+        """Escape every non-ASCII character as RTF Unicode escapes.
+
+        The document is declared ``\\ansi`` and written as UTF-8, so only 7-bit
+        characters can be written as they are. Everything else becomes
+        ``\\uc1\\uN*`` with ``N`` a signed 16-bit UTF-16 code unit; characters
+        beyond the Basic Multilingual Plane become a surrogate pair.
+        """
         converted_text = ""
         for char in text:
             unicode_int = ord(char)
-            if unicode_int <= 255 and unicode_int != 177:
+            if unicode_int < 128:
                 converted_text += char
+                continue
+            if unicode_int < 0x10000:
+                code_units = [unicode_int]
             else:
-                rtf_value = unicode_int - (0 if unicode_int < 32768 else 65536)
+                offset = unicode_int - 0x10000
+                code_units = [0xD800 + (offset >> 10), 0xDC00 + (offset & 0x3FF)]
+            for code_unit in code_units:
+                rtf_value = code_unit - (0 if code_unit < 32768 else 65536)
                 converted_text += f"\\uc1\\u{rtf_value}*"
 
-        text = converted_text
-
-        return text
+        return converted_text
 
     def _as_rtf(self, method: str) -> str:
         """Format source as RTF."""
